@@ -336,6 +336,16 @@ def log_features(a, env, out=None):
             out.add("int-node-vs-decimal-literal")
         if "int-node" in kinds and any(o[0] == "num" and o[2] is not None for o in (a[2], a[3])):
             out.add("int-node-vs-literal-with-unit")
+        try:
+            l, r = _operand_value(a[2], env), _operand_value(a[3], env)
+            if l[0] == "num" and r[0] == "num" and l[2] == r[2] and max(abs(l[1]), abs(r[1])) > 0:
+                rel = abs(l[1] - r[1]) / max(abs(l[1]), abs(r[1]))
+                out.add("offset:0" if rel == 0 else "offset:<=1e-7" if rel <= EQ_IN else
+                        "offset:>=1e-5" if rel >= EQ_OUT else "offset:ambiguous")
+                if l[3] != r[3]:
+                    out.add("convertible-units")
+        except (RefSkip, KeyError):
+            pass
         if "str-node" in kinds:
             out.add("string-operands")
         if "bool-node" in kinds or "bool-operand" in kinds:
